@@ -234,6 +234,31 @@ def shape(r) -> str:
 
 # ------------------------------------------------------------------ workers
 
+HISTORY_SEP = " ;;evaluated-before;; "
+
+
+def _nest(op: str, items: List[str]) -> str:
+    """right-nested binary applications: deeper than z3's pretty printer prints (it abbreviates below depth 20)"""
+    out = items[-1]
+    for x in reversed(items[:-1]):
+        out = "z3.%s(%s, %s)" % (op, x, out)
+    return out
+
+
+def history_family() -> List[str]:
+    """pairs of DEEP regexes that agree near the root and differ only far below it, evaluated one after the other in one
+    process (both orders): the result for a regex must not depend on what was evaluated before"""
+    alts = ['z3.Re("%d")' % n for n in range(10, 58, 2)]
+    u1, u2 = _nest("Union", alts + ['z3.Re("70")']), _nest("Union", alts + ['z3.Re("90")'])
+    zeros = ['z3.Re("0")'] * 23
+    c1, c2 = _nest("Concat", zeros + ['z3.Range("1", "5")']), _nest("Concat", zeros + ['z3.Range("1", "7")'])
+    out = []
+    for a, b in ((u1, u2), (c1, c2)):
+        out += [a + HISTORY_SEP + b, b + HISTORY_SEP + a]
+    out.append("z3.Union(%s, %s)" % (u1, u2))
+    return out
+
+
 def _init():
     import warnings
     warnings.filterwarnings("ignore")
@@ -250,6 +275,13 @@ def regex_worker(text: str) -> Dict[str, Any]:
     from isla.z3_helpers import numeric_intervals_from_regex
     from returns.maybe import Nothing
     out: Dict[str, Any] = dict(regex=text, results=[])
+    if HISTORY_SEP in text:
+        # call history: the same process first evaluates another regex (its result is not judged here)
+        first, text = text.split(HISTORY_SEP)
+        try:
+            numeric_intervals_from_regex(eval(first, {"z3": z3}))
+        except Exception:
+            pass
     try:
         R = eval(text, {"z3": z3})
     except Exception as e:
@@ -288,7 +320,7 @@ def regex_worker(text: str) -> Dict[str, Any]:
         if real_in and (v is None or not in_intervals(v, I)):
             out["results"].append(dict(name="O1-sound", verdict="violated", key="O1-sound/" + shape(R), s=r["s"],
                                        what="%s matches %r (value %s) but the inferred intervals are %s" % (text, s, v, I),
-                                       replay=dict(regex=text, string=s)))
+                                       replay=dict(regex=out["regex"], string=s)))
         else:
             out["results"].append(dict(name="O1-sound", verdict="harness-error", s=r["s"],
                                        what="model %r did not reproduce (in L(R)=%s, value=%s, I=%s)" % (s, real_in, v, I)))
@@ -340,7 +372,7 @@ def regex_worker(text: str) -> Dict[str, Any]:
                    for c in _subterms(R))
         key = "O2-complete/full-range-symmetric" if (full and I == [(-INF, INF)]) else "O2-complete/" + shape(R)
         out["results"].append(dict(name="O2-complete", verdict="violated", key=key, s=t_total,
-                                   what=verdict[1], replay=dict(regex=text, missing=verdict[2])))
+                                   what=verdict[1], replay=dict(regex=out["regex"], missing=verdict[2])))
     else:
         out["results"].append(dict(name="O2-complete", verdict="inconclusive", reason=verdict[1], s=t_total))
     return out
@@ -414,7 +446,7 @@ def main(tier, only):
              'z3.Concat(z3.Union(z3.Re("+"), z3.Re("-"), z3.Re("0")), z3.Range("2", "9"))',
              'z3.Union(z3.Range("0", "3"), z3.Concat(z3.Re("-"), z3.Range("1", "9")))',
              'z3.Concat(z3.Re("0"), z3.Re("0"), z3.Range("0", "9"), z3.Plus(z3.Range("0", "9")))']
-    regexes = extra + [r for r in regexes if r not in extra]
+    regexes = extra + history_family() + [r for r in regexes if r not in extra]
     elems = [b for b in ELEM_BASES] + ["z3.Star(%s)" % b for b in ELEM_BASES] + ["z3.Plus(%s)" % b for b in ELEM_BASES]
     maxlen = 3 if tier == "quick" else 4
     if tier == "quick":
